@@ -1254,6 +1254,11 @@ bn_digits_import_be_hex(bn_digit_t *a, size_t count,
 		byte = 0;
 		cnt = 0;
 	}
+	if (0 != cnt) { /* Odd number of hex digits: the leading one is a byte of its own. */
+		if (w_pos == w_pos_max)
+			return (EOVERFLOW);
+		(*w_pos ++) = (byte >> 4);
+	}
 	memset(w_pos, 0x00, (size_t)(w_pos_max - w_pos));
 
 	return (0);
